@@ -41,6 +41,11 @@ Proof. split; reflexivity. Qed.
 Theorem C06_bank_wrappers_sync_all_accounts : current_bank_sync = model_bank_sync.
 Proof. reflexivity. Qed.
 
+(** the EVM module account is bank-blocked in the app wiring and the tokenfactory admin paths refuse blocked
+    accounts: what C06_escrow_untouched_by_other_modules assumes about the other modules *)
+Theorem C06_escrow_guards_match_model : current_escrow_guards = model_escrow_guards.
+Proof. reflexivity. Qed.
+
 (** hence: executing the conversions as the step lists read from the current tree is executing the model *)
 Theorem C06_current_tree_ops_are_model_ops : forall s o, exec_conv_with current_paths s o = exec s o.
 Proof. intros s o. rewrite C06_paths_match_model. symmetry. apply exec_is_exec_conv_with_model_paths. Qed.
